@@ -206,7 +206,39 @@ func rangeSource(v ssa.Value, isSrc func(ssa.Value) bool, seen map[ssa.Value]boo
 		if ia, ok := x.X.(*ssa.IndexAddr); ok {
 			return isSrc(ia.X)
 		}
+		// a row built in a local struct (`dbTableEntry{index: index, ds: ds}`): what was stored into its fields
+		if al, ok := x.X.(*ssa.Alloc); ok {
+			for _, r := range referrers(al) {
+				if fa, ok := r.(*ssa.FieldAddr); ok {
+					for _, r2 := range referrers(fa) {
+						if st, ok := r2.(*ssa.Store); ok && st.Addr == ssa.Value(fa) && rangeSource(st.Val, isSrc, seen) {
+							return true
+						}
+					}
+				}
+			}
+			return false
+		}
 		return rangeSource(x.X, isSrc, seen)
+	case *ssa.Field:
+		return rangeSource(x.X, isSrc, seen)
+	case *ssa.Alloc:
+		// a local copy of a row (`for _, entry := range entries`): what was stored into it, whole or by field
+		for _, r := range referrers(x) {
+			switch y := r.(type) {
+			case *ssa.Store:
+				if y.Addr == ssa.Value(x) && rangeSource(y.Val, isSrc, seen) {
+					return true
+				}
+			case *ssa.FieldAddr:
+				for _, r2 := range referrers(y) {
+					if st, ok := r2.(*ssa.Store); ok && st.Addr == ssa.Value(y) && rangeSource(st.Val, isSrc, seen) {
+						return true
+					}
+				}
+			}
+		}
+		return false
 	case *ssa.Call:
 		// method call on the ranged element (ds.newDataStoreCommand())
 		for _, a := range x.Call.Args {
@@ -805,17 +837,38 @@ func ruleC19Atomic(c *Ctx) {
 	// the dirty flag is cleared only after the write succeeded: on the nil-error side of the writer call
 	fDirty := c.Field("redisDict", "dirty")
 	n := 0
+	// a helper that does nothing but clear the flag (`clearDirtyUnlocked`) is the clearing event at its call sites
+	clearsDirty := func(in ssa.Instruction) bool {
+		st, ok := isStoreTo(in, fDirty)
+		if !ok {
+			return false
+		}
+		k, isC := st.Val.(*ssa.Const)
+		if !isC || k.Value == nil || k.Value.String() != "false" {
+			return false
+		}
+		return !isFreshDeep(st.Addr.(*ssa.FieldAddr).X, 0)
+	}
+	clearer := map[*ssa.Function]bool{}
+	for _, fn := range c.SrcFuncs() {
+		if c.M.Reach(fn)[pa.writer] {
+			continue
+		}
+		for _, in := range instrsOf(fn) {
+			if clearsDirty(in) {
+				clearer[fn] = true
+			}
+		}
+	}
 	for _, fn := range c.SrcFuncs() {
 		for _, in := range instrsOf(fn) {
-			st, ok := isStoreTo(in, fDirty)
-			if !ok {
-				continue
+			var st ssa.Instruction
+			if clearsDirty(in) {
+				st = in
+			} else if call, ok := in.(*ssa.Call); ok && clearer[call.Call.StaticCallee()] {
+				st = in
 			}
-			k, isC := st.Val.(*ssa.Const)
-			if !isC || k.Value == nil || k.Value.String() != "false" {
-				continue
-			}
-			if isFreshDeep(st.Addr.(*ssa.FieldAddr).X, 0) {
+			if st == nil {
 				continue
 			}
 			// only the store that belongs to a save: the function calls (reaches) the writer
